@@ -211,3 +211,83 @@ Proof.
   - intros (s & H & Hs). injection H as -> -> ->. tauto.
   - intros [[[-> ->] Ha] Hb]. eauto.
 Qed.
+
+(* ---------- whole-table delete (DeleteTableRange, fix afc5d56 included) ---------- *)
+
+Lemma in_ranges_app a b k : in_ranges (a ++ b) k = in_ranges a k || in_ranges b k.
+Proof. unfold in_ranges. apply existsb_app. Qed.
+Lemma in_ranges_cons lo hi r k : in_ranges ((lo, hi) :: r) k = in_range lo hi k || in_ranges r k.
+Proof. reflexivity. Qed.
+
+(* the key types a whole-table delete must cover: every table-prefixed data type and every size/meta record *)
+Definition table_delete_covers (ty : N) : bool := is_table_type ty || is_meta_type ty.
+
+Lemma delete_table_ranges_eq t : delete_table_ranges t =
+  [ (encode_kv_key (pack_redis_key t []), encode_data_table_end kv_type t);
+    (encode_data_table_start kv_type t, encode_data_table_end kv_type t);
+    (coll_key hash_type t [] [], encode_data_table_end hash_type t);
+    (size_key hsize_type (t ++ [table_start_sep]), size_key hsize_type (t ++ [table_start_sep + 1]));
+    (l_encode_list_key t [] list_min_seq, encode_data_table_end list_type t);
+    (size_key lmeta_type (t ++ [table_start_sep]), size_key lmeta_type (t ++ [table_start_sep + 1]));
+    (coll_key set_type t [] [], encode_data_table_end set_type t);
+    (size_key ssize_type (t ++ [table_start_sep]), size_key ssize_type (t ++ [table_start_sep + 1]));
+    (coll_key zset_type t [] [], encode_data_table_end zset_type t);
+    (z_encode_start_key t [], encode_data_table_end zscore_type t);
+    (size_key zsize_type (t ++ [table_start_sep]), size_key zsize_type (t ++ [table_start_sep + 1]));
+    (encode_data_table_start bitmap_type t, encode_data_table_end bitmap_type t);
+    (encode_data_table_start json_type t, encode_data_table_end json_type t);
+    (size_key bitmap_meta_type (t ++ [table_start_sep]), size_key bitmap_meta_type (t ++ [table_start_sep + 1])) ].
+Proof.
+  unfold delete_table_ranges. cbn [flat_map fst snd].
+  rewrite get_table_meta_range_kv.
+  rewrite !get_table_meta_range_whole by reflexivity.
+  reflexivity.
+Qed.
+
+Lemma wf_type_meta x : wf_ekey x -> is_meta_type (ekey_type x) = true -> exists ty t rk, x = KMeta ty t rk.
+Proof.
+  intros Hx Hm. destruct x; cbn [ekey_type wf_ekey] in *; try (vm_compute in Hm; discriminate); eauto.
+  destruct Hx as [Hx _]. apply is_coll_type_cases in Hx. destruct Hx as [->|[->| ->]]; vm_compute in Hm; discriminate.
+Qed.
+
+(* MAIN: DeleteTableRange(table) deletes exactly the keys of that table, of every data type and every
+   size/meta record (the table key counter is deleted separately; table index meta and expire-queue keys are
+   not table-prefixed and are not its business) *)
+Theorem delete_table_exact t x : no_sep t -> wf_ekey x -> ekey_key_nonempty x ->
+  in_ranges (delete_table_ranges t) (encode_ekey x) = true <->
+  ekey_table x = t /\ table_delete_covers (ekey_type x) = true.
+Proof.
+  intros Ht Hx Hne. rewrite delete_table_ranges_eq.
+  change (encode_kv_key (pack_redis_key t [])) with (encode_data_table_start kv_type t).
+  repeat rewrite in_ranges_cons. change (in_ranges [] (encode_ekey x)) with false.
+  rewrite !orb_true_iff.
+  rewrite !(table_range_iff _ t x) by (assumption || reflexivity).
+  rewrite (whole_table_coll_one hash_type t x), (whole_table_coll_one set_type t x), (whole_table_coll_one zset_type t x)
+    by (assumption || reflexivity).
+  rewrite (whole_table_list_one t x), (whole_table_zscore_one t x) by assumption.
+  rewrite !(meta_table_range_iff _ t x) by (assumption || reflexivity).
+  unfold table_delete_covers. split.
+  - intros H.
+    repeat match goal with H : _ \/ _ |- _ => destruct H as [H|H] end;
+      try discriminate H;
+      try (destruct H as [H1 H2]; split; [exact H2|rewrite H1; reflexivity]);
+      try (destruct H as [rk ->]; split; reflexivity).
+  - intros [Htab Hc]. apply orb_true_iff in Hc. destruct Hc as [Hc|Hc].
+    + apply is_table_type_cases in Hc.
+      destruct Hc as [Hc|[Hc|[Hc|[Hc|[Hc|[Hc|[Hc|Hc]]]]]]]; change 21 with kv_type in *; change 22 with hash_type in *;
+        change 29 with set_type in *; change 26 with zset_type in *; change 24 with list_type in *;
+        change 28 with zscore_type in *; change 32 with bitmap_type in *; change 31 with json_type in *; tauto.
+    + destruct (wf_type_meta x Hx Hc) as (ty & t' & rk & ->). cbn [ekey_table ekey_type] in *. subst t'.
+      apply is_meta_type_cases in Hc.
+      destruct Hc as [->|[->|[->|[->| ->]]]]; change 23 with hsize_type; change 30 with ssize_type;
+        change 27 with zsize_type; change 25 with lmeta_type; change 33 with bitmap_meta_type; eauto 20.
+Qed.
+
+(* before fix afc5d56 the bitmap and json keys of the table survived a whole-table delete *)
+Theorem delete_table_without_bitmap_json_refuted :
+  let old_ranges t := firstn 11 (delete_table_ranges t) in
+  exists t x, no_sep t /\ wf_ekey x /\ ekey_table x = t /\ table_delete_covers (ekey_type x) = true /\
+              in_ranges (old_ranges t) (encode_ekey x) = false.
+Proof.
+  exists [116], (KJson [116] [107]). repeat split; try (intros [H|[]]; discriminate).
+Qed.
